@@ -48,7 +48,7 @@ func c13Alphabet(k model.Kind, reduced bool) []model.Cell {
 		}
 		var out []model.Cell
 		out = append(out, model.Null())
-		for _, s := range []string{"", "a", " a", "a ", `"`, `a"b`, ",", "a\nb", "\n", "\xff\xfe", `\.`, "1", "true"} {
+		for _, s := range []string{"", "a", " a", "a ", `"`, `a"b`, ",", "a\nb", "\n", "\xff\xfe", `\.`, "1", "true", "a,\xff", "\xe9\"\n"} {
 			out = append(out, model.S(s))
 		}
 		return out
